@@ -343,6 +343,46 @@ def r18f(ctx, rep, rule="R18f"):
                                      " (bit operations on the code point are present)" if fiddling else ""), [st["loc"]])
 
 
+def r18i(ctx, rep, rule="R18i"):
+    """the reader and string->symbol agree on which first characters are written raw"""
+    from .. import shapes
+    facts = ctx["facts"]
+    rep.rule(rule, "one spelling per name: string->symbol writes the first character of a name raw iff lex::is_initial_identifier "
+             "accepts it and escapes it otherwise; the reader must then produce symbols only from tokens that start with such a "
+             "character. Every scanner lex::scan dispatches to that can produce a Symbol token must be entered under "
+             "is_initial_identifier — otherwise a name such as + or 1+ has two spellings (the reader's raw one, string->symbol's "
+             "escaped one) and two symbols that are not eq? share one name.")
+    scan = need(rep, rule, facts, "marwood::lex::scan")
+    enc = [f for p, f in facts.fns.items() if p.startswith("marwood::vm::builtin::symbol::string_symbol")]
+    if scan is None or not enc:
+        if not enc:
+            rep.anchor_lost(rule, "string_symbol")
+        return
+    if not any(callee(t) == "marwood::lex::is_initial_identifier" for f in enc for bb, t in f.calls()):
+        rep.anchor_lost(rule, "string_symbol no longer decides the first character with lex::is_initial_identifier")
+        return
+    n = 0
+    for bb, t in scan.calls():
+        c = callee(t) or ""
+        g = facts.fns.get(c)
+        if g is None or not c.startswith("marwood::lex::scan_"):
+            continue
+        makes_symbol = any(st["rv"]["k"] == "agg" and (st["rv"].get("adt") or "").endswith("lex::TokenType") and st["rv"].get("variant") == "Symbol"
+                           for b2, j, st in g.stmts())
+        if not makes_symbol:
+            continue
+        n += 1
+        key = "%s|%s" % (rule, short_path(c).rsplit("::", 1)[-1])
+        guards = shapes.guard_shapes(scan, bb, None, 2)
+        ok = any(x.startswith("lex::is_initial_identifier(") and x.endswith("=T") for x in guards)
+        (rep.ok if ok else rep.fail)(
+            rule, key, "%s produces symbols and is entered only on characters string->symbol writes raw" % short_path(c) if ok else
+            "%s can produce a Symbol token but is entered on characters lex::is_initial_identifier rejects (%s): the reader spells "
+            "such a name raw, string->symbol escapes its first character, and the two symbols are not eq?" % (
+                short_path(c), "; ".join(x for x in guards if "is_initial" in x or x.endswith(("=46", "=43", "=45")))[:160]), [t["loc"]])
+    rep.floor(rule, "scanners that can produce a Symbol token", n, 3)
+
+
 def run(ctx, rep):
     r18a(ctx, rep)
     r18b(ctx, rep)
@@ -353,6 +393,7 @@ def run(ctx, rep):
     r18c(ctx, rep)
     from . import tables
     tables.r18d(ctx, rep)
+    r18i(ctx, rep)
     from . import C10
     C10.r10j(ctx, rep, rule="R18h")
     rep.rules["R18h"] = "symbol->string decodes every name string->symbol can build: " + rep.rules["R18h"]
